@@ -506,8 +506,9 @@ def sweep_server(ctx):
         jobs.append((ctx.seed, 2, ("flip", bit, 0)))
     for cut in range(0, cr_len, 4 if q else 1):
         jobs.append((ctx.seed, 2, ("cut", cut, 0)))
-    # (bytes appended after the authenticated part are ignored by the parser - the length field is inside the authenticated header; such a copy still
-    #  proves possession of the key and is not a mutation in the sense of the property)
+    # a genuine challenge response with bytes appended is a byte-level mutation like any other (nothing may follow the tag; see DESIGN 7.3, D23)
+    for n in (1, 4, 60):
+        jobs.append((ctx.seed, 2, ("extend", n, 0)))
     jobs.append((ctx.seed, 3, ("same", 0, 0)))
     for k in range(6):
         jobs.append((ctx.seed, 4, ("token-variant", k, 0)))
